@@ -5,19 +5,21 @@ import ast
 import re
 
 from ..core import Ctx
-from ..match import arg, call_name, calls, facts_at, local_defs, mentions, resolve, single_def, stores
+from ..match import arg, call_name, calls, fact_of, facts_at, local_defs, mentions, rchain, resolve, single_def, stores
 from ..model import AnalysisError, ClassInfo, FuncInfo, ancestors, chain, const_value, enclosing_stmt, norm, parent, strip_cast, walk_no_nested
 
 LEVEL = "other"
 EXPLANATION = (
     "The application's half of durability: in every insert_* of IdentityDatabase and AttestationsDB each normal path from "
     "the INSERT to the return passes self.commit(); no `with <database>:` block (which defers commits) exists anywhere, "
-    "so commit() reaches connection.commit(); _pending_commits is touched only by the deferral mechanism; the journal "
+    "so commit() reaches connection.commit(); _pending_commits is touched only by the deferral mechanism, __exit__ always "
+    "resets it and __enter__ never lowers it (a nested block keeps the commits its enclosing block deferred); the journal "
     "settings are tracked through _initial_statements (file databases end in WAL and synchronous NORMAL, the temporary "
     "DELETE mode is always followed by WAL) and no other code issues journal/synchronous pragmas; schemas are "
     "CREATE TABLE IF NOT EXISTS, keyed inserts are INSERT OR IGNORE, check_database commits, and the column order of "
-    "INSERT / SELECT agrees with to_database_tuple / from_database_tuple so a reopened database rebuilds the same "
-    "objects. SQLite's atomic commit and behaviour at each kill point are trusted, not explored."
+    "INSERT / SELECT agrees with to_database_tuple / from_database_tuple (each column is bound to the field / key of "
+    "the same name, whatever the locals are called) so a reopened database rebuilds the same objects, and the pseudonym "
+    "reload places every token it reads back into tree.elements (not through the bounded gather_token intake). SQLite's atomic commit and behaviour at each kill point are trusted, not explored."
 )
 
 DB = "ipv8/database.py"
@@ -25,18 +27,66 @@ IDB = "ipv8/attestation/identity/database.py"
 WDB = "ipv8/attestation/wallet/database.py"
 
 
+def _str_of(fi: FuncInfo, e: ast.AST | None, depth: int = 0) -> str | None:
+    """Text of a statement expression: literal, f-string ({} for the holes), `a + b`, `fmt % x`, `fmt.format(..)`,
+    also when it reaches the call through single-assignment locals.  None when it is not a string we can read."""
+    if e is None or depth > 6:
+        return None
+    e = resolve(fi, e)
+    if isinstance(e, ast.Constant) and isinstance(e.value, str):
+        return e.value
+    if isinstance(e, ast.JoinedStr):
+        return "".join(v.value if isinstance(v, ast.Constant) and isinstance(v.value, str) else "{}" for v in e.values)
+    if isinstance(e, ast.BinOp) and isinstance(e.op, ast.Add):
+        l, r = _str_of(fi, e.left, depth + 1), _str_of(fi, e.right, depth + 1)
+        return None if l is None or r is None else l + r
+    if isinstance(e, ast.BinOp) and isinstance(e.op, ast.Mod):
+        return _str_of(fi, e.left, depth + 1)
+    if isinstance(e, ast.Call) and isinstance(e.func, ast.Attribute) and e.func.attr == "format":
+        return _str_of(fi, e.func.value, depth + 1)
+    return None
+
+
 def _sql_of(call: ast.Call, fi: FuncInfo) -> str:
-    a = arg(call, 0)
+    a = arg(call, 0, "statement")
     if a is None:
         return ""
-    if isinstance(a, ast.Constant) and isinstance(a.value, str):
-        return a.value
-    if isinstance(a, ast.JoinedStr):
-        return "".join(v.value if isinstance(v, ast.Constant) else "{}" for v in a.values)
-    r = resolve(fi, a)
-    if isinstance(r, ast.Constant) and isinstance(r.value, str):
-        return r.value
-    return norm(a)
+    s = _str_of(fi, a)
+    return s if s is not None else norm(a)
+
+
+def _stored_values(fi: FuncInfo, attr_chain: str) -> list[tuple[ast.stmt, ast.AST | None]]:
+    """(statement, stored value) for every store into `attr_chain`; the value of a tuple assignment is the paired
+    element (`a.x, y = 0, a.x` stores 0 into a.x); None when the value is not syntactically known (augmented, unpacking)."""
+    out: list[tuple[ast.stmt, ast.AST | None]] = []
+    for n in walk_no_nested(fi.node):
+        if isinstance(n, ast.Assign):
+            for t in n.targets:
+                if chain(t) == attr_chain:
+                    out.append((n, n.value))
+                elif isinstance(t, (ast.Tuple, ast.List)):
+                    for i, e in enumerate(t.elts):
+                        if chain(e) == attr_chain:
+                            v = n.value
+                            out.append((n, v.elts[i] if isinstance(v, (ast.Tuple, ast.List)) and len(v.elts) == len(t.elts)
+                                        and not any(isinstance(x, ast.Starred) for x in v.elts) else None))
+        elif isinstance(n, ast.AnnAssign) and n.value is not None and chain(n.target) == attr_chain:
+            out.append((n, n.value))
+        elif isinstance(n, ast.AugAssign) and chain(n.target) == attr_chain:
+            out.append((n, None))
+        elif isinstance(n, ast.NamedExpr) and chain(n.target) == attr_chain:
+            out.append((enclosing_stmt(n), n.value))
+    return out
+
+
+def _is_int(e: ast.AST | None, fi: FuncInfo | None = None):
+    """int value of a literal (through a single-assignment local), else None"""
+    if e is None:
+        return None
+    if fi is not None:
+        e = resolve(fi, e)
+    v = const_value(e)
+    return v if isinstance(v, int) and not isinstance(v, bool) else None
 
 
 def insert_functions(ctx: Ctx) -> list[FuncInfo]:
@@ -84,6 +134,84 @@ def rule_commit_after_insert(ctx: Ctx) -> None:
                   f"{fi.qualname} is wrapped/async: the commit may not have happened when the call returns")
 
 
+PENDING = "self._pending_commits"
+
+
+def _is_pending(fi: FuncInfo, e: ast.AST) -> bool:
+    return rchain(fi, e) == PENDING
+
+
+def _pending_is_zero(f) -> bool:
+    """does this dominating fact say that self._pending_commits is 0 (the counter is never negative)?"""
+    if f.op == "truthy":
+        return not f.pos and chain(strip_cast(f.left)) == PENDING
+    l, r = chain(strip_cast(f.left)), chain(strip_cast(f.right))
+    lv, rv = _is_int(f.left), _is_int(f.right)
+    if f.op == "eq" and f.pos:
+        return (l == PENDING and rv == 0) or (r == PENDING and lv == 0)
+    if f.op == "lt" and f.pos:          # pending < 1
+        return l == PENDING and rv is not None and rv <= 1
+    if f.op == "lt" and not f.pos:      # not (0 < pending)  ==  pending <= 0
+        return r == PENDING and lv is not None and lv <= 0
+    return False
+
+
+def _keeps_pending(ctx: Ctx, fi: FuncInfo, cfg, v: ast.AST, depth: int = 0) -> bool | None:
+    """Is the stored value >= the current counter (True), possibly smaller (False), or unreadable (None)?"""
+    site = v                      # where the value is used: the guards that dominate the use decide about a constant
+    v = resolve(fi, v)
+    if depth > 4:
+        return None
+    if _is_pending(fi, v):
+        return True
+    if isinstance(v, ast.Call) and chain(v.func) == "max" and not v.keywords and not any(isinstance(a, ast.Starred) for a in v.args):
+        return True if any(_is_pending(fi, resolve(fi, a)) for a in v.args) else False
+    if isinstance(v, ast.BoolOp) and isinstance(v.op, ast.Or):
+        # `pending or k`: pending when it is non-zero, k only when it is 0
+        return True if _is_pending(fi, resolve(fi, v.values[0])) else False
+    if isinstance(v, ast.IfExp):
+        a, b = _keeps_pending(ctx, fi, cfg, v.body, depth + 1), _keeps_pending(ctx, fi, cfg, v.orelse, depth + 1)
+        return None if a is None or b is None else a and b
+    if isinstance(v, ast.BinOp) and isinstance(v.op, ast.Add):
+        for x, y in ((v.left, v.right), (v.right, v.left)):
+            k = _is_int(y, fi)
+            if _is_pending(fi, resolve(fi, x)) and k is not None:
+                return k >= 0
+        return None
+    k = _is_int(v)
+    if k is not None:
+        # a constant is fine only where the counter is known to be 0
+        return k >= 0 and any(_pending_is_zero(f) for f in facts_at(cfg, site))
+    return None
+
+
+def _enter_keeps_pending(ctx: Ctx) -> None:
+    """
+    `with database:` blocks nest (a batching helper called from inside a batch).  commit() inside a block only counts
+    (_pending_commits += 1) and the OUTERMOST __exit__ commits iff the count it finds is > 1.  So __enter__ may raise the
+    counter to 1 but must never lower it: if a nested __enter__ forgets the commits already counted, the inner __exit__
+    (which saw none of its own) and the outer __exit__ (which finds 0) both skip connection.commit(), and every insert of
+    the finished batch stays in an open transaction - lost by a kill although its insert call and the whole batch returned.
+    """
+    repo = ctx.repo
+    en = repo.method("Database", "__enter__", DB)
+    cfg = ctx.cfg(en)
+    sv = _stored_values(en, PENDING)
+    if not sv:
+        ctx.instance("no-deferred-commit", en.where(), "__enter__ does not write _pending_commits (nothing is deferred)", nontrivial=False)
+    for st, v in sv:
+        if v is None and isinstance(st, ast.AugAssign):
+            k = _is_int(st.value, en)
+            verdict = (k >= 0) if isinstance(st.op, ast.Add) and k is not None else None
+        else:
+            verdict = None if v is None else _keeps_pending(ctx, en, cfg, v)
+        if verdict is None:
+            raise AnalysisError(f"undecided: cannot tell whether `{norm(st)}` in Database.__enter__ keeps the commits already deferred")
+        ctx.check(verdict, "no-deferred-commit", en, st, "__enter__ never lowers _pending_commits (a nested with-block keeps the commits deferred by the enclosing one)",
+                  "Database.__enter__ overwrites _pending_commits: entering a nested `with database:` block forgets the commits already deferred by the "
+                  "enclosing block, so neither __exit__ calls connection.commit() and the inserts of a finished batch are lost by a kill")
+
+
 def rule_no_deferred(ctx: Ctx) -> None:
     repo = ctx.repo
     dbcls = repo.cls("Database", DB)
@@ -110,22 +238,23 @@ def rule_no_deferred(ctx: Ctx) -> None:
     # leaving a `with database:` block always ends the deferral, also when the body raised
     ex_ = repo.method("Database", "__exit__", DB)
     cfge = ctx.cfg(ex_)
-    resets = [n for s_ in walk_no_nested(ex_.node) if isinstance(s_, ast.Assign) and any("self._pending_commits" in norm(t) for t in s_.targets)
-              and (norm(s_.value) in ("0", "(0, self._pending_commits)")) for n in cfge.nodes_for(s_)]
+    resets = [n for s_, v in _stored_values(ex_, PENDING) if _is_int(v, ex_) == 0 for n in cfge.nodes_for(s_)]
     ok = bool(resets) and cfge.exit not in cfge.reach(cut_nodes=resets, follow_exc=False)
     ctx.check(ok, "no-deferred-commit", ex_, ex_.node, "__exit__ resets _pending_commits to 0 on every path (also when the body raised)",
               "a `with database:` block whose body raises leaves the database in deferred-commit mode: every later insert returns without being committed")
     init = repo.method("Database", "__init__", DB)
-    ok = any(norm(s.value) == "0" for s, t in stores(init, "self._pending_commits"))
+    iv = _stored_values(init, PENDING)
+    ok = bool(iv) and all(_is_int(v, init) == 0 for _, v in iv)
     ctx.check(ok, "no-deferred-commit", init, init.node, "_pending_commits starts at 0", "databases start in deferred-commit mode")
+    _enter_keeps_pending(ctx)
     cm = repo.method("Database", "commit", DB)
     cfg = ctx.cfg(cm)
     cc = [c for c in calls(cm) if call_name(c) == "commit" and "_connection" in norm(c.func)]
     ctx.anchor(cc, "connection.commit() in Database.commit")
     for c in cc:
         fs = facts_at(cfg, c)
-        only = [f for f in fs if not (f.op == "truthy" and not f.pos and chain(f.left) == "self._pending_commits")]
-        ctx.check(any(f.op == "truthy" and not f.pos and chain(f.left) == "self._pending_commits" for f in fs) and not only, "no-deferred-commit", cm, c,
+        only = [f for f in fs if not _pending_is_zero(f)]
+        ctx.check(any(_pending_is_zero(f) for f in fs) and not only, "no-deferred-commit", cm, c,
                   "connection.commit() runs whenever no commits are pending", "Database.commit() skips the real commit for another reason than a pending with-block", [str(f) for f in fs])
     rets = [r for r in walk_no_nested(cm.node) if isinstance(r, ast.Return) and const_value(r.value) is True]
     cn = [n for c in cc for n in cfg.nodes_for(c)]
@@ -140,6 +269,29 @@ def rule_no_deferred(ctx: Ctx) -> None:
     d = [a for a in cl.node.args.defaults]
     ok = ok and d and const_value(d[-1]) is True
     ctx.check(ok, "no-deferred-commit", cl, cl.node, "close(commit=True) commits before closing the connection", "close() does not commit before closing")
+
+
+def _eq_const(f, fi: FuncInfo | None = None):
+    """(chain of the non-constant side, constant) of an equality fact / atom, whichever side the constant is on"""
+    if f.op != "eq":
+        return None, None
+    for a, b in ((f.left, f.right), (f.right, f.left)):
+        v = const_value(b)
+        if isinstance(v, str) and not isinstance(const_value(a), str):
+            a = strip_cast(a)
+            if isinstance(a, ast.Name) and fi is not None and isinstance(resolve(fi, a), ast.Attribute):
+                a = resolve(fi, a)          # `path = self._file_path` ... `path == ":memory:"`
+            return (chain(a) or norm(a)), v
+    return None, None
+
+
+def _members(e: ast.AST | None):
+    """constant members of a tuple / list / set literal"""
+    if isinstance(e, (ast.Tuple, ast.List, ast.Set)):
+        vals = [const_value(x) for x in e.elts]
+        if all(isinstance(v, (str, int)) for v in vals):
+            return set(vals)
+    return None
 
 
 def rule_pragmas(ctx: Ctx) -> None:
@@ -162,9 +314,10 @@ def rule_pragmas(ctx: Ctx) -> None:
     if wal:
         fs = facts_at(cfg, wal[0])
         # guard: not (journal_mode == "WAL" or file_path == ":memory:")
-        a = any(f.op == "eq" and not f.pos and norm(f.left) == "journal_mode" and const_value(f.right) == "WAL" for f in fs)
-        b = any(f.op == "eq" and not f.pos and norm(f.left) == "self._file_path" and const_value(f.right) == ":memory:" for f in fs)
-        extra = [f for f in fs if not ((f.op == "eq" and not f.pos and norm(f.left) in ("journal_mode", "self._file_path")))]
+        eqs = [(f, *_eq_const(f, fi)) for f in fs]
+        a = any(not f.pos and l == "journal_mode" and v == "WAL" for f, l, v in eqs)
+        b = any(not f.pos and l == "self._file_path" and v == ":memory:" for f, l, v in eqs)
+        extra = [f for f, l, v in eqs if not (not f.pos and (l, v) in (("journal_mode", "WAL"), ("self._file_path", ":memory:")))]
         ctx.check(a and b and not extra, "pragmas", fi, wal[0], "WAL is switched on exactly when the mode is not WAL and the database is a file",
                   "the WAL switch depends on another condition: file databases can stay in a rollback-journal mode that was not chosen", [str(f) for f in fs])
     if dele and wal:
@@ -176,16 +329,23 @@ def rule_pragmas(ctx: Ctx) -> None:
         wn = cfg.nodes_for(wal[0])
         # after `journal_mode = "DELETE"` (checked: always follows the pragma, no later rebinding) the test
         # `journal_mode == "WAL"` is false, so its true edge is infeasible on these paths
-        later = [d for d in local_defs(fi, "journal_mode") if upd and d[0].lineno > upd[0].lineno]
+        after_upd = cfg.reach([v for n in un for v, lab in n.succ if lab != "exc"])
+        later = [d for d in local_defs(fi, "journal_mode") if d[0] not in upd and any(n in after_upd for n in cfg.nodes_for(d[0]))]
         ok = ok and not later
-        mem_true = lambda u, v, lab: (u.kind == "cond" and lab is True and norm(u.ast) in ("self._file_path == ':memory:'", "journal_mode == 'WAL'"))  # noqa: E731
+
+        def mem_true(u, v, lab) -> bool:
+            # the edge on which `journal_mode == "WAL"` / `self._file_path == ":memory:"` holds (either spelling of the test)
+            if u.kind != "cond" or lab not in (True, False):
+                return False
+            f = fact_of(u.ast, lab)
+            return f.pos and _eq_const(f, fi) in (("journal_mode", "WAL"), ("self._file_path", ":memory:"))
         r = cfg.reach([v for n in un for v, lab in n.succ if lab != "exc"], cut_nodes=wn, cut_edge=mem_true, follow_exc=False)
         ok = ok and cfg.exit not in r
         ctx.check(ok, "pragmas", fi, dele[0], "the temporary DELETE journal mode is always followed by the switch back to WAL (file databases)",
                   "after changing the page size a file database can be left in DELETE journal mode")
     if sy:
         fs = facts_at(cfg, sy[0][1])
-        ok = any(f.op == "in" and not f.pos and norm(f.left) == "synchronous" and const_value(f.right) == ("NORMAL", 1) for f in fs) and len(fs) == 1
+        ok = any(f.op == "in" and not f.pos and norm(f.left) == "synchronous" and _members(resolve(fi, f.right)) == {"NORMAL", 1} for f in fs) and len(fs) == 1
         ctx.check(ok, "pragmas", fi, sy[0][1], "synchronous is forced to NORMAL whenever it is anything else", "synchronous can stay at a weaker (OFF) or is forced under an unrelated condition")
     # nobody else touches these pragmas
     n = 0
@@ -226,6 +386,191 @@ def _select_columns(sql: str) -> list[str]:
     return [c.strip() for c in m.group(1).split(",")] if m else []
 
 
+def _tdt_fields(tdt: FuncInfo) -> list[str] | None:
+    """attribute names returned (in order) by to_database_tuple; None when the returns are not one readable tuple"""
+    shapes = set()
+    for r in walk_no_nested(tdt.node):
+        if not isinstance(r, ast.Return):
+            continue
+        v = resolve(tdt, r.value) if r.value is not None else None
+        if not isinstance(v, (ast.Tuple, ast.List)) or any(isinstance(x, ast.Starred) for x in v.elts):
+            return None
+        names = []
+        for x in v.elts:
+            c = rchain(tdt, x) or norm(x)
+            names.append(c[5:] if c.startswith("self.") and c.count(".") == 1 else c)
+        shapes.add(tuple(names))
+    return list(next(iter(shapes))) if len(shapes) == 1 else None
+
+
+def _is_tdt_call(fi: FuncInfo, e: ast.AST | None) -> bool:
+    e = resolve(fi, e) if e is not None else None
+    return isinstance(e, ast.Call) and call_name(e) == "to_database_tuple" and not e.args and not e.keywords
+
+
+def _bind_source(fi: FuncInfo, x: ast.AST, depth: int = 0) -> tuple:
+    """Where one bound value comes from: ("field", j) = element j of <obj>.to_database_tuple(), ("key", p) = p.key_to_bin()
+    of parameter p, ("other", text) otherwise.  Local names do not matter, only what they were assigned from."""
+    x = strip_cast(x)
+    if isinstance(x, ast.Name) and depth < 6:
+        d = single_def(fi, x.id)
+        if d is not None:
+            v, j = d
+            if j is not None:
+                return ("field", j) if _is_tdt_call(fi, v) else ("other", norm(x))
+            return _bind_source(fi, v, depth + 1)
+        return ("other", norm(x))
+    if isinstance(x, ast.Subscript) and _is_tdt_call(fi, x.value):
+        j = _is_int(x.slice)
+        if j is not None and j >= 0:
+            return ("field", j)
+    if isinstance(x, ast.Call) and isinstance(x.func, ast.Attribute) and x.func.attr == "key_to_bin" and not x.args and not x.keywords:
+        base = rchain(fi, x.func.value)
+        if base in fi.params():
+            return ("key", base)
+    return ("other", norm(x))
+
+
+def _bind_items(fi: FuncInfo, e: ast.AST | None, nfields: int, depth: int = 0) -> list[tuple] | None:
+    """the bindings expression of an execute call as a flat list of sources (tuple / list literal, through a local,
+    `(k,) + t`, `(k, *t)`, tuple(...)); None when it cannot be read"""
+    if e is None or depth > 6:
+        return None
+    e = resolve(fi, e)
+    if isinstance(e, (ast.Tuple, ast.List)):
+        out: list[tuple] = []
+        for x in e.elts:
+            if isinstance(x, ast.Starred):
+                sub = _bind_items(fi, x.value, nfields, depth + 1)
+                if sub is None:
+                    return None
+                out += sub
+            else:
+                out.append(_bind_source(fi, x))
+        return out
+    if isinstance(e, ast.BinOp) and isinstance(e.op, ast.Add):
+        l, r = _bind_items(fi, e.left, nfields, depth + 1), _bind_items(fi, e.right, nfields, depth + 1)
+        return None if l is None or r is None else l + r
+    if isinstance(e, ast.Call) and chain(e.func) in ("tuple", "list") and len(e.args) == 1 and not e.keywords:
+        return _bind_items(fi, e.args[0], nfields, depth + 1)
+    if _is_tdt_call(fi, e):
+        return [("field", j) for j in range(nfields)]
+    return None
+
+
+_WRAP = ("list", "tuple", "sorted", "set", "frozenset", "iter", "reversed")
+
+
+def _is_token_read(fi: FuncInfo, e: ast.AST | None, depth: int = 0) -> bool:
+    """e evaluates to what get_tokens_for returned (possibly re-packed by list()/sorted()/...: same members)"""
+    e = resolve(fi, e) if e is not None else None
+    if not isinstance(e, ast.Call) or depth > 4:
+        return False
+    if call_name(e) == "get_tokens_for":
+        return True
+    return chain(e.func) in _WRAP and bool(e.args) and _is_token_read(fi, e.args[0], depth + 1)
+
+
+def _keyed_store(fi: FuncInfo, st: ast.AST, base: str, var: str) -> bool:
+    """st is `<base>[<var>.get_hash()] = <var>` (aliases of the base / the hash followed)"""
+    if not isinstance(st, ast.Assign) or len(st.targets) != 1 or not isinstance(st.targets[0], ast.Subscript):
+        return False
+    t = st.targets[0]
+    k = resolve(fi, t.slice)
+    v = strip_cast(st.value)
+    return rchain(fi, t.value) == base and isinstance(v, ast.Name) and v.id == var and isinstance(k, ast.Call) \
+        and call_name(k) == "get_hash" and not k.args and isinstance(k.func, ast.Attribute) and isinstance(k.func.value, ast.Name) and k.func.value.id == var
+
+
+def _callee_always_stores(ctx: Ctx, h: FuncInfo, pos: int, kw: str | None) -> bool:
+    """the method stores its token parameter under its hash in self.elements on every normal path (like TokenTree._append)"""
+    ps = [p for p in h.params() if p not in ("self", "cls")]
+    var = kw if kw in ps else ps[pos] if kw is None and 0 <= pos < len(ps) else None
+    if var is None or local_defs(h, var):
+        return False
+    cfg = ctx.cfg(h)
+    sn = [n for st in walk_no_nested(h.node) if _keyed_store(h, st, "self.elements", var) for n in cfg.nodes_for(st)]
+    return bool(sn) and cfg.exit not in cfg.reach(cut_nodes=sn, follow_exc=False)
+
+
+def _reload_keeps_every_token(ctx: Ctx, pm: FuncInfo) -> None:
+    """
+    The rebuilt pseudonym must contain every stored token: PseudonymManager.__init__ puts each token read back by
+    get_tokens_for into tree.elements under its hash, on every iteration, without a filter and without going through the
+    network intake path.  TokenTree.gather_token is that intake path: it only chains a token whose predecessor is already
+    present and parks the others in `unchained`, a buffer capped at unchained_max_size that evicts its oldest entry.
+    get_tokens_for returns a set (arbitrary order), so on reload children usually precede their parents; for a long chain
+    stored tokens are evicted and never reach the tree - records whose insert had returned are missing after reopen and
+    the credentials that point to them no longer verify.
+    """
+    cfg = ctx.cfg(pm)
+    what = "pseudonym reload puts every stored token into tree.elements (no filter, no bounded intake buffer)"
+    n_seen = 0
+    for loop in [n for n in walk_no_nested(pm.node) if isinstance(n, (ast.For, ast.AsyncFor)) and _is_token_read(pm, n.iter)]:
+        n_seen += 1
+        if not isinstance(loop.target, ast.Name):
+            raise AnalysisError("undecided: reload loop over get_tokens_for does not bind a single name")
+        var = loop.target.id
+        heads = cfg.nodes_for(loop)
+        good = [n for st in walk_no_nested(loop) if _keyed_store(pm, st, "self.tree.elements", var) for n in cfg.nodes_for(st)]
+        through = []          # calls that hand the token to another method
+        for c in calls(loop):
+            idx = next((i for i, a in enumerate(c.args) if isinstance(strip_cast(a), ast.Name) and strip_cast(a).id == var), None)
+            kw = next((k.arg for k in c.keywords if isinstance(strip_cast(k.value), ast.Name) and strip_cast(k.value).id == var), None)
+            if idx is None and kw is None:
+                continue
+            targets = ctx.repo.resolve_call(pm, c) if rchain(pm, c.func.value if isinstance(c.func, ast.Attribute) else c.func) == "self.tree" else []
+            if targets and all(_callee_always_stores(ctx, h, idx if idx is not None else -1, kw) for h in targets):
+                good += cfg.nodes_for(c)
+            else:
+                through.append(c)
+        # every iteration (normal paths from the loop head into the body back to the head / out of the loop) stores the token
+        body_first = [v for h in heads for v, lab in h.succ if lab is True]
+        r = cfg.reach(body_first, cut_nodes=good, follow_exc=False)
+        ok = bool(good) and not any(h in r for h in heads) and cfg.exit not in r and not cfg_conditional(ctx, pm, loop)
+        via_tree = [c for c in through if isinstance(c.func, ast.Attribute) and rchain(pm, c.func.value) == "self.tree"]
+        if ok:
+            ctx.check(True, "schema-reopen", pm, loop, what)
+        elif via_tree or (through and not good):
+            c = (via_tree or through)[0]
+            ctx.check(False, "schema-reopen", pm, c, what,
+                      f"PseudonymManager.__init__ rebuilds the token tree through `{chain(c.func)}` instead of placing every stored token in tree.elements: "
+                      "that path only chains a token whose predecessor is already present and parks the rest in the bounded `unchained` buffer (oldest evicted); "
+                      "tokens come back from the database in arbitrary (set) order, so stored tokens are dropped and the rebuilt pseudonym does not verify")
+        elif good:
+            ctx.check(False, "schema-reopen", pm, loop, what,
+                      "PseudonymManager.__init__ skips some of the tokens read back from the database: stored records are missing from the rebuilt pseudonym")
+        else:
+            raise AnalysisError("undecided: cannot see how PseudonymManager.__init__ places the tokens read from the database into the tree")
+    # one-statement spellings: tree.elements.update({t.get_hash(): t for t in tokens}) / tree.elements = {...}
+    for st in walk_no_nested(pm.node):
+        d = None
+        if isinstance(st, ast.Assign) and len(st.targets) == 1 and rchain(pm, st.targets[0]) == "self.tree.elements":
+            d = resolve(pm, st.value)
+        elif isinstance(st, ast.AugAssign) and isinstance(st.op, ast.BitOr) and rchain(pm, st.target) == "self.tree.elements":
+            d = resolve(pm, st.value)
+        elif isinstance(st, ast.Expr) and isinstance(st.value, ast.Call) and call_name(st.value) == "update" and isinstance(st.value.func, ast.Attribute) \
+                and rchain(pm, st.value.func.value) == "self.tree.elements" and len(st.value.args) == 1:
+            d = resolve(pm, st.value.args[0])
+        if isinstance(d, ast.DictComp) and len(d.generators) == 1 and _is_token_read(pm, d.generators[0].iter):
+            n_seen += 1
+            g = d.generators[0]
+            v = g.target.id if isinstance(g.target, ast.Name) else None
+            k = d.key
+            ok = v is not None and not g.ifs and isinstance(d.value, ast.Name) and d.value.id == v and isinstance(k, ast.Call) and call_name(k) == "get_hash" \
+                and isinstance(k.func, ast.Attribute) and isinstance(k.func.value, ast.Name) and k.func.value.id == v and not cfg_conditional(ctx, pm, st)
+            ctx.check(ok, "schema-reopen", pm, st, what, "PseudonymManager.__init__ filters or re-keys the tokens read back from the database: stored records are missing from the rebuilt pseudonym")
+    if not n_seen:
+        raise AnalysisError("undecided: PseudonymManager.__init__ calls get_tokens_for but the use of its result is not recognised")
+
+
+def cfg_conditional(ctx: Ctx, fi: FuncInfo, st: ast.AST) -> bool:
+    """the statement can be skipped on a normal path through the function"""
+    cfg = ctx.cfg(fi)
+    ns = cfg.nodes_for(st)
+    return not ns or cfg.exit in cfg.reach(cut_nodes=ns, follow_exc=False)
+
+
 def rule_schema(ctx: Ctx) -> None:
     repo = ctx.repo
     idb = repo.cls("IdentityDatabase", IDB)
@@ -261,31 +606,36 @@ def rule_schema(ctx: Ctx) -> None:
         obj = repo.cls(cls, rel)
         tdt = obj.methods["to_database_tuple"]
         fdt = obj.methods["from_database_tuple"]
-        ret = [r for r in walk_no_nested(tdt.node) if isinstance(r, ast.Return)][0]
-        fields = [norm(e).replace("self.", "") for e in (ret.value.elts if isinstance(ret.value, ast.Tuple) else [ret.value])]
-        writes = [c for c in calls(fi) if (chain(c.func) or "").startswith("self.") and c.args and re.match(r"\s*INSERT", _sql_of(c, fi), re.I)]
+        fields = _tdt_fields(tdt)
+        if fields is None:
+            raise AnalysisError(f"undecided: {tdt.qualname} does not return one tuple of fields")
+        writes = [c for c in calls(fi) if (chain(c.func) or "").startswith("self.") and (c.args or c.keywords) and re.match(r"\s*INSERT", _sql_of(c, fi), re.I)]
         if not writes:
             ctx.check(False, "schema-reopen", fi, fi.node, f"{ins} issues an INSERT statement", f"{ins} has no recognisable INSERT statement")
             continue
-        e = writes[0]
-        cols = _insert_columns(_sql_of(e, fi))
-        binds = arg(e, 1)
-        bnames = [norm(b) for b in binds.elts] if isinstance(binds, ast.Tuple) else []
-        # unpacking of to_database_tuple into locals
-        un = [s for s in walk_no_nested(fi.node) if isinstance(s, ast.Assign) and isinstance(s.value, ast.Call) and call_name(s.value) == "to_database_tuple"]
-        locs = [norm(x) for x in un[0].targets[0].elts] if un and isinstance(un[0].targets[0], ast.Tuple) else []
-        data_cols = [c for c in cols if c not in ("public_key", "authority_key")]
-        data_binds = [b for b in bnames if not b.endswith(".key_to_bin()")]
-        ok = locs == fields and data_binds == locs and data_cols == fields and len(cols) == len(bnames)
-        ctx.check(ok, "schema-reopen", fi, e, f"{ins}: to_database_tuple fields {fields} are bound to the same-named columns in order",
-                  f"{ins}: column list {cols} / bindings {bnames} do not match to_database_tuple {fields}: a reloaded record differs from the stored object")
+        for e in writes:
+            cols = _insert_columns(_sql_of(e, fi))
+            items = _bind_items(fi, arg(e, 1, "bindings"), len(fields))
+            if items is None:
+                raise AnalysisError(f"undecided: cannot read the bindings of the INSERT in {fi.qualname}: `{norm(e)[:120]}`")
+            # every column gets the value that belongs to it: a to_database_tuple field goes to the column of the same name
+            # (whatever the local is called, wherever the column stands), a key column gets that key parameter's key_to_bin()
+            want = [("field", fields.index(c)) if c in fields else ("key", c) for c in cols]
+            ok = bool(cols) and items == want and sorted(c for c in cols if c in fields) == sorted(fields)
+            shown = [fields[i[1]] if i[0] == "field" and i[1] < len(fields) else f"{i[1]}.key_to_bin()" if i[0] == "key" else i[1] for i in items]
+            ctx.check(ok, "schema-reopen", fi, e, f"{ins}: to_database_tuple fields {fields} are bound to the same-named columns",
+                      f"{ins}: column list {cols} / bindings {shown} do not match to_database_tuple {fields}: a reloaded record differs from the stored object")
         g = idb.methods[getter]
-        sel = _select_columns(_sql_of(calls(g, "self.execute")[0], g))
+        reads = [c for c in calls(g) if (chain(c.func) or "").startswith("self.") and re.match(r"\s*SELECT", _sql_of(c, g), re.I)]
+        if not reads:
+            raise AnalysisError(f"undecided: no SELECT statement recognised in {g.qualname}")
+        sql = _sql_of(reads[0], g)
+        sel = _select_columns(sql)
         params = [p for p in fdt.params() if p != "cls"]
         ok = sel == params
         ctx.check(ok, "schema-reopen", g, g.node, f"{getter}: SELECT {sel} matches from_database_tuple{tuple(params)}",
                   f"{getter}: selected columns {sel} do not match from_database_tuple parameters {params}")
-        where = re.search(r"WHERE\s+(\w+)\s*=", _sql_of(calls(g, "self.execute")[0], g), re.I)
+        where = re.search(r"WHERE\s+(\w+)\s*=", sql, re.I)
         ctx.check(where is not None and where.group(1) == "public_key", "schema-reopen", g, g.node, f"{getter} selects by public_key", f"{getter} does not select by owner key")
     # a record is written after the records it points to: token before its metadata, metadata before attestations over it
     ac = repo.method("PseudonymManager", "add_credential", "ipv8/attestation/identity/manager.py")
@@ -299,6 +649,8 @@ def rule_schema(ctx: Ctx) -> None:
     pm = repo.method("PseudonymManager", "__init__", "ipv8/attestation/identity/manager.py")
     ok = any(call_name(c) == "get_tokens_for" for c in calls(pm)) and any(call_name(c) == "get_credentials_for" for c in calls(pm))
     ctx.check(ok, "schema-reopen", pm, pm.node, "pseudonym reload reads tokens and credentials back from the database", "the pseudonym is not rebuilt from the stored tokens/credentials")
+    if ok:
+        _reload_keeps_every_token(ctx, pm)
 
 
 def run(ctx: Ctx) -> None:
@@ -345,4 +697,11 @@ WITNESSES = [
      "new": "        metadata = to_list(self.execute(\"SELECT signature, token_pointer, serialized_json_dict \""},
     {"name": "plain INSERT on keyed table", "file": IDB, "rule": "schema-reopen",
      "old": "        self.execute(\"INSERT OR IGNORE INTO Metadata \"", "new": "        self.execute(\"INSERT INTO Metadata \""},
+    {"name": "nested with-block forgets deferred commits", "file": DB, "rule": "no-deferred-commit",
+     "old": "        self._pending_commits = max(1, self._pending_commits)\n", "new": "        self._pending_commits = 1\n"},
+    {"name": "reload through the bounded intake path", "file": "ipv8/attestation/identity/manager.py", "rule": "schema-reopen",
+     "old": "            self.tree.elements[token.get_hash()] = token\n", "new": "            self.tree.gather_token(token)\n"},
+    {"name": "owner and authority keys bound to each other's column", "file": IDB, "rule": "schema-reopen",
+     "old": "(public_key.key_to_bin(), authority_key.key_to_bin(), metadata_pointer, signature))",
+     "new": "(authority_key.key_to_bin(), public_key.key_to_bin(), metadata_pointer, signature))"},
 ]
